@@ -140,11 +140,17 @@ type RWMutex struct {
 	real    sync.RWMutex
 	writer  bool
 	readers int
+	// pending counts writers that have called Lock and are waiting: like the real RWMutex ("a blocked Lock call
+	// excludes new readers from acquiring the lock"), they keep new readers out - which is what turns a recursive
+	// read lock into a deadlock as soon as a writer arrives between the two RLock calls.
+	pending int
 }
 
 func (m *RWMutex) Lock() {
 	if managed() {
+		m.pending++
 		Ctl.Acquire(m, "Lock", func() bool { return !m.writer && m.readers == 0 })
+		m.pending--
 		m.writer = true
 		return
 	}
@@ -165,7 +171,7 @@ func (m *RWMutex) Unlock() {
 
 func (m *RWMutex) RLock() {
 	if managed() {
-		Ctl.Acquire(m, "RLock", func() bool { return !m.writer })
+		Ctl.Acquire(m, "RLock", func() bool { return !m.writer && m.pending == 0 })
 		m.readers++
 		return
 	}
@@ -197,7 +203,7 @@ func (m *RWMutex) TryLock() bool {
 
 func (m *RWMutex) TryRLock() bool {
 	if managed() {
-		if m.writer {
+		if m.writer || m.pending > 0 {
 			return false
 		}
 		m.readers++
